@@ -1028,7 +1028,7 @@ func (e *Engine) assignOne(st *State, l, r ast.Expr, exit exitFn) []*State {
 		}
 	case f.isNilExpr(r):
 		e.learn(st, f.NilKey(l), True, l)
-	case isNonNilExpr(r):
+	case isNonNilExpr(r) || f.nonNilCall(r):
 		e.learn(st, f.NilKey(l), False, l)
 	default:
 		if g, ok := f.globalName(r); ok {
@@ -1066,6 +1066,23 @@ func isErrorType(t types.Type) bool {
 		return false
 	}
 	return types.Identical(t, types.Universe.Lookup("error").Type())
+}
+
+// nonNilCall: constructors of the standard library that never return nil.
+func (f *Func) nonNilCall(r ast.Expr) bool {
+	call, ok := ast.Unparen(r).(*ast.CallExpr)
+	if !ok {
+		return false
+	}
+	fo, ok := typeutil.Callee(f.Info, call).(*types.Func)
+	if !ok || fo.Pkg() == nil {
+		return false
+	}
+	switch fo.Pkg().Path() + "." + fo.Name() {
+	case "fmt.Errorf", "errors.New":
+		return true
+	}
+	return false
 }
 
 func isNonNilExpr(r ast.Expr) bool {
